@@ -302,7 +302,7 @@ func negative(tokens []Token, baseUrl string, out *csDescriptors) error {
 	var values []pr.NamedString
 	for len(tokens) != 0 {
 		var token Token
-		token, tokens = tokens[len(tokens)-1], tokens[:len(tokens)-1]
+		token, tokens = tokens[0], tokens[1:] // in source order: prefix, then suffix
 		if p, ok := stringIdentOrUrl(token, baseUrl); ok {
 			values = append(values, p)
 		}
